@@ -138,7 +138,9 @@ Record hop := mk_hop { h_ev : lev; h_call : Z; h_ret : Z }.
 Fixpoint remove_nth {A} (i : nat) (l : list A) : list A :=
   match l with [] => [] | x :: r => match i with 0 => r | S i' => x :: remove_nth i' r end end.
 Definition min_ret (l : list hop) : Z := fold_left (fun a h => Z.min a (h_ret h)) l (2 ^ 62)%Z.
-(* depth-first: the next operation is one that no pending operation returned before *)
+(* depth-first: the next operation is one that no pending operation returned before.
+   Written with if-then-else throughout: vm_compute is call-by-value, && and existsb
+   would explore every order. *)
 Fixpoint lin_search (fuel : nat) (val : N -> option N) (pending : list hop) : bool :=
   match fuel with
   | O => false
@@ -147,12 +149,14 @@ Fixpoint lin_search (fuel : nat) (val : N -> option N) (pending : list hop) : bo
       | [] => true
       | _ =>
           let mr := min_ret pending in
-          existsb (fun i =>
-                     match nth_error pending i with
-                     | Some h => (h_call h <=? mr)%Z && lev_legal val (h_ev h) &&
-                                 lin_search f (val_after val (h_ev h)) (remove_nth i pending)
-                     | None => false
-                     end) (seq 0 (length pending))
+          (fix try (i : nat) (l : list hop) {struct l} : bool :=
+             match l with
+             | [] => false
+             | h :: r =>
+                 if (if (h_call h <=? mr)%Z then lev_legal val (h_ev h) else false)
+                 then (if lin_search f (val_after val (h_ev h)) (remove_nth i pending) then true else try (S i) r)
+                 else try (S i) r
+             end) 0 pending
       end
   end.
 Definition linearizable (ops : list hop) : bool := lin_search (S (length ops)) (fun _ => None) ops.
